@@ -40,8 +40,8 @@ ScopedOf(s) == {Skels[s].scoped[j] : j \in 1..Len(Skels[s].scoped)}
 Run(s, t) == Exec(Skels[s].body, 1, St0(FlagsOf(s), Opts0, ""), t, Skels[s].env0)
 \* senv: the final bindings of the scoped names; xval: the final value of x (witnesses only)
 Summ(s, r, t) == [ok |-> r.st.ok, nm |-> r.st.nm, want |-> r.st.want, x |-> r.x, complete |-> r.st.ok /\ r.st.l = Len(t) + 1,
-                  senv |-> [m \in ScopedOf(s) \cap DOMAIN r.env |-> r.env[m]],
-                  xval |-> IF "x" \in DOMAIN r.env THEN r.env["x"] ELSE NoneV]
+                  senv |-> [m \in ScopedOf(s) \cap DOMAIN r.env |-> Reify(r.st.h, r.env[m])],
+                  xval |-> IF "x" \in DOMAIN r.env THEN Reify(r.st.h, r.env["x"]) ELSE NoneV]
 
 NewV(b) == [k |-> "v", id |-> 100 + Len(tr), b |-> b]
 Ev(w, r, x) == [e |-> w.e, op |-> w.op, n |-> w.n, xs |-> w.xs, names |-> w.names, r |-> r, x |-> x]
